@@ -1,50 +1,49 @@
 /-
 C17 — recursion layers and aggregations chain, with or without cached preparation.
+Version for the tree with findings F10 and F10b repaired (`fixes/C17-1.diff`, `fixes/C17-2.diff`).
 
 Model: `P3R.Model.Cache` (the call-sequence state machine of `prove_next_layer`,
 `prove_aggregation_layer`, `prove_aggregation_layer_cross`; jobs `J`, keys `F`, any number of
-caller cache variables, any sequence of calls, any pattern of cache arguments).
+caller cache variables, any sequence of calls, any pattern of cache arguments). After the repair
+the key is the extended fingerprint (four counters + digest of `(ops, public_rows,
+private_input_rows)`) and `prove_next_layer` compares it too, refusing on mismatch.
 
 **Full statement** (what the property text demands, for every sequence of calls and every
-pattern of cache reuse):
+pattern of cache reuse): every call either is refused with an error — and then only because it
+was handed a preparation made for a different circuit — or proves with exactly the preparation
+data of its own circuit, so that its proof verifies exactly when the uncached one does.
 
-    ∀ key prepOf s h, SlotsWF key s →
-      (run key s h).2.map (fun o => prepOf o.used) = (uncached h).map prepOf        (★)
+What is proved, for every history, every number of cache variables, every initial content:
 
-i.e. every call proves with exactly the preparation data of its own job, so its proof
-verifies exactly when the uncached one does; and a stored preparation made for a different
-circuit is never used (it is refused or recomputed).
-
-(★) is **false of the current code**, in two independent ways (`P3R.Witness.C17`):
-  * `prove_aggregation_layer{,_cross}` compares four size counters only; two different
-    verification circuits with equal counters share a key (`fingerprint_not_injective`,
-    `cache_full_statement_false`);
-  * `prove_next_layer` compares nothing (`next_layer_full_statement_false`).
-
-Proved here, for every history, every number of cache variables, every initial cache content:
-
-* `cache_refines_uncached_partial` — (★) under the two hypotheses that exclude exactly those
-  shapes: `KeyDeterminesPrep` (jobs of the history / of the initial cache content that share a
-  key share their preparation) and `CallerPrepsMatch` (every `NextLayerPrepCache` handed to
-  `prove_next_layer` was prepared for a job with the same preparation);
-* `cache_refines_uncached` — the same under an injective key (the form in DESIGN §4/C17);
-* `cached_verdict_eq_uncached_partial` — hence, for every outcome function of (job, data used),
-  the cached outcome of every call equals the uncached outcome ("verify exactly when");
-* `different_job_recomputed` — with a key that separates the stored job from the current one,
-  the aggregation call does not use the stored data, recomputes, and overwrites the variable;
-* `agg_hit_iff` — a call uses stored data iff the variable is filled and the stored key equals
-  the current key (no other condition: `params`/`config` are not consulted);
-* `agg_used_correct_iff` — exact characterisation, no hypothesis: the data used by an
-  aggregation call is prepared for the current job iff it missed or the stored job has the
-  same preparation;
-* `circuit_part_refines_partial` — jobs = circuit × params and a key that reads the circuit
-  only: under injectivity on *circuits* the circuit component of the data used is always the
-  current circuit (the params component may be stale: `Witness.C17.params_stale`);
-* `slotsWF_run` — invariant: every stored entry carries the key of its job.
+* `cache_refines_uncached_digest` — the full statement for jobs = circuit × params, key =
+  `fingerprintX dg`, preparation = the model's preprocessed columns (`prepData`, from
+  `genPrep`), under **one** assumption: `DigestInjOn dg` — the digest function does not collide
+  on the structures `(ops, public_rows, private_input_rows)` of the circuits the history
+  mentions (its own circuits, the circuits of the preparations handed in, the circuits stored
+  in the initial cache variables). The hypotheses `KeyDeterminesPrep` and `CallerPrepsMatch` of
+  the pre-repair theorem are gone: the first is now *derived* (`keyDeterminesPrep_of_digest`,
+  from `prepData_congr`: the preprocessed columns are a function of the structure), the second
+  is enforced by the code (`next_refused_iff`).
+  A 64-bit digest cannot be injective on all circuits; the assumption is about the finitely
+  many circuits of one history and is the only place where "no collision" enters. It is named
+  `_digest`, not claimed unconditionally: the statement without `DigestInjOn` is false for any
+  non-injective `dg` (`Witness.C17.constant_digest_insufficient`).
+* `cache_refines_uncached_partial` — the generic form (any `J`, `F`, `key`, `prepOf`) under
+  `KeyDeterminesPrep` alone; `cache_refines_uncached` — under an injective key: every call is
+  refused or uses the data of the job itself.
+* `refused_iff` — a call is refused iff it is a `prove_next_layer` call handed a preparation
+  whose key differs from the key of the current circuit (never an aggregation call, never a
+  call without cache, never a preparation with the same key).
+* `cached_verdict_eq_uncached_partial` — for every outcome function of (job, data used), every
+  call that is not refused has the uncached outcome.
+* `different_job_recomputed`, `agg_hit_iff`, `agg_used_correct_iff`, `slotsWF_run` — as before.
+* `circuit_part_refines_partial` — a key that reads the circuit only: the circuit component of
+  the data used is right; the params component may be stale (`Witness.C17.params_stale`; the
+  proof records its packing, so this does not affect the verdict).
 
 What is not a theorem: that a proof made with the right preparation verifies and is a valid
-input of the next layer (C01 + C10 + the cryptographic layer); this is exercised on the real
-code by every run of the check.
+input of the next layer (C01 + C10 + the cryptographic layer); exercised on the real code by
+every run of the check.
 -/
 import P3R.Model.Cache
 import Mathlib.Data.List.Forall2
@@ -64,9 +63,12 @@ def slotJobs (s : Slots F J) : List J := s.map fun p => p.2.job
 def KeyDeterminesPrep (key : J → F) (prepOf : J → D) (js : List J) : Prop :=
   ∀ j j', j ∈ js → j' ∈ js → key j = key j' → prepOf j = prepOf j'
 
-/-- Every preparation handed to `prove_next_layer` was made for a job with the same data. -/
-def CallerPrepsMatch (prepOf : J → D) (h : List (Step J)) : Prop :=
-  ∀ j j', Step.next j (some j') ∈ h → prepOf j' = prepOf j
+/-- The outcome of one call is acceptable: refused, or proved with data that is the
+preparation of the call's own job. -/
+def Good (prepOf : J → D) (st : Step J) (o : StepOut J) : Prop :=
+  match o.used with
+  | none => True
+  | some u => prepOf u = prepOf st.job
 
 /-! ### Cache-variable lemmas -/
 
@@ -121,18 +123,26 @@ theorem slotJobs_set {s : Slots F J} {k : Nat} {e : Entry F J} {j : J}
 /-! ### One call -/
 
 theorem step_agg_empty {key : J → F} {s : Slots F J} {k : Nat} (job : J) (hg : s.get k = none) :
-    step key s (.agg job (some k)) = (s.set k ⟨key job, job⟩, ⟨false, job⟩) := by
+    step key s (.agg job (some k)) = (s.set k ⟨key job, job⟩, ⟨false, some job⟩) := by
   simp only [step, hg]
 
 theorem step_agg_hit {key : J → F} {s : Slots F J} {k : Nat} {e : Entry F J} (job : J)
     (hg : s.get k = some e) (he : e.key = key job) :
-    step key s (.agg job (some k)) = (s, ⟨true, e.job⟩) := by
+    step key s (.agg job (some k)) = (s, ⟨true, some e.job⟩) := by
   simp only [step, hg, he, if_true]
 
 theorem step_agg_miss {key : J → F} {s : Slots F J} {k : Nat} {e : Entry F J} (job : J)
     (hg : s.get k = some e) (he : e.key ≠ key job) :
-    step key s (.agg job (some k)) = (s.set k ⟨key job, job⟩, ⟨false, job⟩) := by
+    step key s (.agg job (some k)) = (s.set k ⟨key job, job⟩, ⟨false, some job⟩) := by
   simp only [step, hg, he, if_false]
+
+theorem step_next_hit {key : J → F} {s : Slots F J} (job j' : J) (he : key j' = key job) :
+    step key s (.next job (some j')) = (s, ⟨true, some j'⟩) := by
+  simp only [step, he, if_true]
+
+theorem step_next_refused {key : J → F} {s : Slots F J} (job j' : J) (he : key j' ≠ key job) :
+    step key s (.next job (some j')) = (s, ⟨false, none⟩) := by
+  simp only [step, he, if_false]
 
 /-- The invariant is preserved by every call. -/
 theorem slotsWF_step {key : J → F} {s : Slots F J} (hwf : SlotsWF key s) (st : Step J) :
@@ -151,7 +161,10 @@ theorem slotsWF_step {key : J → F} {s : Slots F J} (hwf : SlotsWF key s) (st :
   | next job prep =>
     cases prep with
     | none => exact hwf
-    | some j' => exact hwf
+    | some j' =>
+      by_cases he : key j' = key job
+      · rw [step_next_hit job j' he]; exact hwf
+      · rw [step_next_refused job j' he]; exact hwf
 
 /-- Jobs stored after a call were stored before, or are the call's own job. -/
 theorem slotJobs_step {key : J → F} {s : Slots F J} (st : Step J) {j : J}
@@ -174,10 +187,13 @@ theorem slotJobs_step {key : J → F} {s : Slots F J} (st : Step J) {j : J}
   | next job prep =>
     cases prep with
     | none => exact Or.inr h
-    | some j' => exact Or.inr h
+    | some j' =>
+      by_cases he : key j' = key job
+      · rw [step_next_hit job j' he] at h; exact Or.inr h
+      · rw [step_next_refused job j' he] at h; exact Or.inr h
 
-/-- A call uses stored data iff the variable is filled and the stored key equals the current
-key. Nothing else is consulted. -/
+/-- An aggregation call uses stored data iff the variable is filled and the stored key equals
+the current key. Nothing else is consulted. -/
 theorem agg_hit_iff (key : J → F) (s : Slots F J) (job : J) (k : Nat) :
     (step key s (.agg job (some k))).2.hit = true ↔ ∃ e, s.get k = some e ∧ e.key = key job := by
   cases hg : s.get k with
@@ -189,9 +205,9 @@ theorem agg_hit_iff (key : J → F) (s : Slots F J) (job : J) (k : Nat) :
 
 /-- Exact characterisation (no hypothesis): the data used by an aggregation call is the
 preparation of the current job iff the call missed or the stored job has the same
-preparation. -/
+preparation. An aggregation call is never refused. -/
 theorem agg_used_correct_iff (key : J → F) (prepOf : J → D) (s : Slots F J) (job : J) (k : Nat) :
-    prepOf (step key s (.agg job (some k))).2.used = prepOf job ↔
+    (∃ u, (step key s (.agg job (some k))).2.used = some u ∧ prepOf u = prepOf job) ↔
       ∀ e, s.get k = some e → e.key = key job → prepOf e.job = prepOf job := by
   cases hg : s.get k with
   | none => rw [step_agg_empty job hg]; simp
@@ -200,13 +216,36 @@ theorem agg_used_correct_iff (key : J → F) (prepOf : J → D) (s : Slots F J) 
     · rw [step_agg_hit job hg he]; simp [he]
     · rw [step_agg_miss job hg he]; simp [he]
 
-/-- "Refused or recomputed whenever the circuit it was prepared for differs": if the key
-separates the stored job from the current one, the call recomputes for the current job and the
-variable afterwards holds the current job. -/
+/-- **Refusal** happens exactly when `prove_next_layer` is handed a preparation whose key differs
+from the key of the current circuit. -/
+theorem refused_iff (key : J → F) (s : Slots F J) (st : Step J) :
+    (step key s st).2.used = none ↔ ∃ job j', st = .next job (some j') ∧ key j' ≠ key job := by
+  cases st with
+  | agg job slot =>
+    cases slot with
+    | none => simp [step]
+    | some k =>
+      cases hg : s.get k with
+      | none => rw [step_agg_empty job hg]; simp
+      | some e =>
+        by_cases he : e.key = key job
+        · rw [step_agg_hit job hg he]; simp
+        · rw [step_agg_miss job hg he]; simp
+  | next job prep =>
+    cases prep with
+    | none => simp [step]
+    | some j' =>
+      by_cases he : key j' = key job
+      · rw [step_next_hit job j' he]; simp [he]
+      · rw [step_next_refused job j' he]; simp [he]
+
+/-- "Refused or recomputed whenever the circuit it was prepared for differs", aggregation: if
+the key separates the stored job from the current one, the call recomputes for the current job
+and the variable afterwards holds the current job. -/
 theorem different_job_recomputed {key : J → F} {s : Slots F J} (hwf : SlotsWF key s)
     {k : Nat} {e : Entry F J} {job : J} (hget : s.get k = some e) (hdiff : e.job ≠ job)
     (hsep : key e.job = key job → e.job = job) :
-    (step key s (.agg job (some k))).2 = ⟨false, job⟩ ∧
+    (step key s (.agg job (some k))).2 = ⟨false, some job⟩ ∧
       (step key s (.agg job (some k))).1.get k = some ⟨key job, job⟩ := by
   have hk : e.key = key e.job := hwf (k, e) (mem_of_get hget)
   have hne : e.key ≠ key job := fun h => hdiff (hsep (hk ▸ h))
@@ -223,134 +262,211 @@ theorem slotsWF_run {key : J → F} (h : List (Step J)) {s : Slots F J} (hwf : S
     unfold run
     exact ih (slotsWF_step hwf st)
 
-/-- Pointwise form of the main theorem. -/
-theorem run_forall₂ (key : J → F) (prepOf : J → D) (h : List (Step J)) :
+theorem job_mem_mentioned (st : Step J) : st.job ∈ st.mentioned := by
+  cases st with
+  | agg j sl => simp [Step.job, Step.mentioned]
+  | next j p => cases p <;> simp [Step.job, Step.mentioned]
+
+/-- **C17, cache part, generic form** (`…_partial`: one hypothesis, `hkey`). For every sequence
+of calls, every number of cache variables, every initial content: each call is refused or
+proves with the preparation data of its own job. -/
+theorem cache_refines_uncached_partial (key : J → F) (prepOf : J → D) (h : List (Step J)) :
     ∀ (s : Slots F J), SlotsWF key s →
-      KeyDeterminesPrep key prepOf (slotJobs s ++ uncached h) →
-      CallerPrepsMatch prepOf h →
-      List.Forall₂ (fun st o => prepOf o.used = prepOf st.job) h (run key s h).2 := by
+      KeyDeterminesPrep key prepOf (slotJobs s ++ mentioned h) →
+      List.Forall₂ (Good prepOf) h (run key s h).2 := by
   induction h with
-  | nil => intro s _ _ _; exact List.Forall₂.nil
+  | nil => intro s _ _; exact List.Forall₂.nil
   | cons st rest ih =>
-    intro s hwf hkey hcall
+    intro s hwf hkey
     unfold run
-    refine List.Forall₂.cons ?_ (ih (step key s st).1 (slotsWF_step hwf st) ?_ ?_)
+    have hjob : st.job ∈ slotJobs s ++ mentioned (st :: rest) :=
+      List.mem_append_right _ (by
+        simp only [mentioned, List.flatMap_cons]
+        exact List.mem_append_left _ (job_mem_mentioned st))
+    refine List.Forall₂.cons ?_ (ih (step key s st).1 (slotsWF_step hwf st) ?_)
     · -- the first call
       cases st with
       | agg job slot =>
         cases slot with
-        | none => rfl
+        | none => simp [step, Good, Step.job]
         | some k =>
-          refine (agg_used_correct_iff key prepOf s job k).mpr ?_
-          intro e hget hek
-          have hmem := mem_of_get hget
-          have hk : e.key = key e.job := hwf (k, e) hmem
-          apply hkey e.job job
-          · exact List.mem_append_left _ (List.mem_map.mpr ⟨(k, e), hmem, rfl⟩)
-          · exact List.mem_append_right _ (by simp [uncached, Step.job])
-          · rw [← hk, hek]
+          cases hg : s.get k with
+          | none => rw [step_agg_empty job hg]; simp [Good, Step.job]
+          | some e =>
+            by_cases he : e.key = key job
+            · rw [step_agg_hit job hg he]
+              have hmem := mem_of_get hg
+              have hk : e.key = key e.job := hwf (k, e) hmem
+              show prepOf e.job = prepOf job
+              apply hkey e.job job
+              · exact List.mem_append_left _ (List.mem_map.mpr ⟨(k, e), hmem, rfl⟩)
+              · exact hjob
+              · rw [← hk, he]
+            · rw [step_agg_miss job hg he]; simp [Good, Step.job]
       | next job prep =>
         cases prep with
-        | none => rfl
-        | some j' => exact hcall job j' List.mem_cons_self
-    · -- hypotheses for the rest
+        | none => simp [step, Good, Step.job]
+        | some j' =>
+          by_cases he : key j' = key job
+          · rw [step_next_hit job j' he]
+            show prepOf j' = prepOf job
+            apply hkey j' job _ hjob he
+            exact List.mem_append_right _ (by simp [mentioned, Step.mentioned])
+          · rw [step_next_refused job j' he]; trivial
+    · -- hypothesis for the rest
+      have hsub : ∀ j, j ∈ slotJobs (step key s st).1 ++ mentioned rest →
+          j ∈ slotJobs s ++ mentioned (st :: rest) := by
+        intro j hj
+        rcases List.mem_append.mp hj with h1 | h1
+        · rcases slotJobs_step st h1 with h2 | h2
+          · subst h2; exact hjob
+          · exact List.mem_append_left _ h2
+        · exact List.mem_append_right _ (by
+            simp only [mentioned, List.flatMap_cons]
+            exact List.mem_append_right _ h1)
       intro j j' hj hj' hkk
-      apply hkey j j' _ _ hkk
-      · rcases List.mem_append.mp hj with h1 | h1
-        · rcases slotJobs_step st h1 with h2 | h2
-          · subst h2; exact List.mem_append_right _ (by simp [uncached])
-          · exact List.mem_append_left _ h2
-        · exact List.mem_append_right _ (by simp only [uncached, List.map_cons] at h1 ⊢; exact List.mem_cons_of_mem _ h1)
-      · rcases List.mem_append.mp hj' with h1 | h1
-        · rcases slotJobs_step st h1 with h2 | h2
-          · subst h2; exact List.mem_append_right _ (by simp [uncached])
-          · exact List.mem_append_left _ h2
-        · exact List.mem_append_right _ (by simp only [uncached, List.map_cons] at h1 ⊢; exact List.mem_cons_of_mem _ h1)
-    · intro j j' hm
-      exact hcall j j' (List.mem_cons_of_mem _ hm)
+      exact hkey j j' (hsub j hj) (hsub j' hj') hkk
 
-theorem map_eq_of_forall₂ {α β γ : Type} {f : β → γ} {g : α → γ} {l : List α} {os : List β}
-    (hf : List.Forall₂ (fun a b => f b = g a) l os) : os.map f = l.map g := by
-  induction hf with
-  | nil => rfl
-  | cons hhd _ ih => simp [hhd, ih]
-
-/-- **C17, cache part** (`…_partial`: the full statement (★) has no `hkey` / `hcall` and is
-false of the current code, see the header). For every sequence of calls, every number of cache
-variables, every initial content: each call proves with the preparation data of its own job. -/
-theorem cache_refines_uncached_partial (key : J → F) (prepOf : J → D) (s : Slots F J)
-    (h : List (Step J)) (hwf : SlotsWF key s)
-    (hkey : KeyDeterminesPrep key prepOf (slotJobs s ++ uncached h))
-    (hcall : CallerPrepsMatch prepOf h) :
-    ((run key s h).2.map fun o => prepOf o.used) = (uncached h).map prepOf := by
-  have hf := run_forall₂ key prepOf h s hwf hkey hcall
-  unfold uncached
-  rw [List.map_map]
-  exact map_eq_of_forall₂ hf
-
-/-- The form of DESIGN §4/C17: under a key that is injective on the jobs of the history (and of
-the initial cache content) and with matching caller-supplied preparations, the data used is
-*the* data of the job itself. -/
+/-- Under a key that is injective on the jobs the history mentions (and on the initial cache
+content): every call is refused or proves with the data of the job itself. -/
 theorem cache_refines_uncached (key : J → F) (s : Slots F J) (h : List (Step J))
     (hwf : SlotsWF key s)
-    (hinj : ∀ j j', j ∈ slotJobs s ++ uncached h → j' ∈ slotJobs s ++ uncached h →
-      key j = key j' → j = j')
-    (hcall : ∀ j j', Step.next j (some j') ∈ h → j' = j) :
-    (run key s h).2.map (fun o => o.used) = uncached h := by
-  have := cache_refines_uncached_partial key (fun j => j) s h hwf hinj hcall
-  simpa using this
+    (hinj : ∀ j j', j ∈ slotJobs s ++ mentioned h → j' ∈ slotJobs s ++ mentioned h →
+      key j = key j' → j = j') :
+    List.Forall₂ (fun st o => o.used = none ∨ o.used = some st.job) h (run key s h).2 := by
+  have := cache_refines_uncached_partial key (fun j => j) h s hwf hinj
+  refine this.imp ?_
+  intro st o hg
+  unfold Good at hg
+  cases hu : o.used with
+  | none => exact Or.inl rfl
+  | some u =>
+    rw [hu] at hg
+    exact Or.inr (congrArg some (by simpa using hg))
 
 /-- "Verify exactly when the uncached ones do": for every outcome function of (job, data
-used) — native verification verdict, acceptance by the following layer, … — the outcome of
-every cached call equals the outcome of the same call without cache. -/
+used), every call that is not refused has the outcome of the same call without cache. -/
 theorem cached_verdict_eq_uncached_partial {O : Type} (outcome : J → D → O) (key : J → F)
     (prepOf : J → D) (s : Slots F J) (h : List (Step J)) (hwf : SlotsWF key s)
-    (hkey : KeyDeterminesPrep key prepOf (slotJobs s ++ uncached h))
-    (hcall : CallerPrepsMatch prepOf h) :
-    List.Forall₂ (fun st o => outcome st.job (prepOf o.used) = outcome st.job (prepOf st.job))
-      h (run key s h).2 :=
-  (run_forall₂ key prepOf h s hwf hkey hcall).imp fun _ _ hh => by rw [hh]
+    (hkey : KeyDeterminesPrep key prepOf (slotJobs s ++ mentioned h)) :
+    List.Forall₂ (fun st o => ∀ u, o.used = some u →
+        outcome st.job (prepOf u) = outcome st.job (prepOf st.job)) h (run key s h).2 := by
+  refine (cache_refines_uncached_partial key prepOf h s hwf hkey).imp ?_
+  intro st o hg u hu
+  unfold Good at hg
+  rw [hu] at hg
+  rw [hg]
 
-/-- Jobs = circuit × params, key reads the circuit only (as `aggregation_circuit_fingerprint`
-does). If the fingerprint is injective on the circuits of the history, the *circuit* the data
-was prepared for is always the current circuit. (The params component can be stale.) -/
+/-- Jobs = circuit × params, key reads the circuit only (as the fingerprint does). If the key is
+injective on the circuits the history mentions, the *circuit* the data was prepared for is
+always the current circuit. (The params component can be stale.) -/
 theorem circuit_part_refines_partial {C P : Type} (fp : C → F) (s : Slots F (C × P))
     (h : List (Step (C × P))) (hwf : SlotsWF (fun j => fp j.1) s)
-    (hinj : ∀ j j', j ∈ slotJobs s ++ uncached h → j' ∈ slotJobs s ++ uncached h →
-      fp j.1 = fp j'.1 → j.1 = j'.1)
-    (hcall : ∀ j j', Step.next j (some j') ∈ h → j'.1 = j.1) :
-    (run (fun j => fp j.1) s h).2.map (fun o => o.used.1) = (uncached h).map Prod.fst :=
-  cache_refines_uncached_partial (fun j : C × P => fp j.1) (Prod.fst : C × P → C) s h hwf hinj hcall
+    (hinj : ∀ j j', j ∈ slotJobs s ++ mentioned h → j' ∈ slotJobs s ++ mentioned h →
+      fp j.1 = fp j'.1 → j.1 = j'.1) :
+    List.Forall₂ (Good (Prod.fst : C × P → C)) h (run (fun j => fp j.1) s h).2 :=
+  cache_refines_uncached_partial (fun j : C × P => fp j.1) (Prod.fst : C × P → C) h s hwf hinj
+
+theorem forall₂_and {α β : Type} {R T : α → β → Prop} {l : List α} {m : List β}
+    (h1 : List.Forall₂ R l m) (h2 : List.Forall₂ T l m) :
+    List.Forall₂ (fun a b => R a b ∧ T a b) l m := by
+  induction h1 with
+  | nil => exact List.Forall₂.nil
+  | cons hh _ ih =>
+    cases h2 with
+    | cons k1 k2 => exact List.Forall₂.cons ⟨hh, k1⟩ (ih k2)
+
+/-! ### The concrete key: counters + structure digest -/
+
+/-- The preparation data of a circuit in the model of `generate_preprocessed_columns`: Const
+indices, Public indices, ALU rows (kind, operand indices, roles). -/
+def prepData {K : Type} (c : Circuit K) : Option (List Nat × List Nat × List AluPrep) :=
+  (genPrep c).map fun p => (p.consts, p.pubs, p.alu)
+
+/-- The preprocessed columns are a function of the structure the digest is computed from. -/
+theorem prepData_congr {K : Type} {c c' : Circuit K} (h : structureOf c = structureOf c') :
+    prepData c = prepData c' := by
+  have h1 : c.ops.toList = c'.ops.toList := congrArg Prod.fst h
+  have h3 : c.privRows.toList = c'.privRows.toList := congrArg (fun x => x.2.2) h
+  simp only [prepData, genPrep, h1, h3]
+
+/-- The one remaining assumption: the digest function does not collide on the structures of the
+listed circuits. -/
+def DigestInjOn {K S P : Type} (dg : Structure K → S) (js : List (Circuit K × P)) : Prop :=
+  ∀ j j', j ∈ js → j' ∈ js → dg (structureOf j.1) = dg (structureOf j'.1) →
+    structureOf j.1 = structureOf j'.1
+
+/-- `KeyDeterminesPrep` is no longer a hypothesis: it follows from `DigestInjOn`. -/
+theorem keyDeterminesPrep_of_digest {K S P : Type} (dg : Structure K → S)
+    (js : List (Circuit K × P)) (hd : DigestInjOn dg js) :
+    KeyDeterminesPrep (fun j : Circuit K × P => fingerprintX dg j.1)
+      (fun j : Circuit K × P => prepData j.1) js := by
+  intro j j' hj hj' hk
+  have : dg (structureOf j.1) = dg (structureOf j'.1) := congrArg FingerprintX.digest hk
+  exact prepData_congr (hd j j' hj hj' this)
+
+/-- **C17, cache part, for the repaired code.** Jobs = circuit × params, key = extended
+fingerprint. For every sequence of calls, every number of cache variables and every
+(well-formed) initial content: if the digest does not collide on the circuits mentioned, every
+call is refused or proves with the preprocessed columns of its own circuit; and it is refused
+only if it is a `prove_next_layer` call handed a preparation with a different fingerprint. -/
+theorem cache_refines_uncached_digest {K S P : Type} [DecidableEq S] (dg : Structure K → S)
+    (s : Slots (FingerprintX S) (Circuit K × P)) (h : List (Step (Circuit K × P)))
+    (hwf : SlotsWF (fun j : Circuit K × P => fingerprintX dg j.1) s)
+    (hd : DigestInjOn dg (slotJobs s ++ mentioned h)) :
+    List.Forall₂ (fun st o =>
+        Good (fun j : Circuit K × P => prepData j.1) st o ∧
+        (o.used = none → ∃ job j', st = .next job (some j') ∧
+          fingerprintX dg j'.1 ≠ fingerprintX dg job.1))
+      h (run (fun j : Circuit K × P => fingerprintX dg j.1) s h).2 := by
+  have hgood := cache_refines_uncached_partial (fun j : Circuit K × P => fingerprintX dg j.1)
+    (fun j : Circuit K × P => prepData j.1) h s hwf (keyDeterminesPrep_of_digest dg _ hd)
+  -- refusal characterisation along the run
+  have href : ∀ (h : List (Step (Circuit K × P))) (s : Slots (FingerprintX S) (Circuit K × P)),
+      List.Forall₂ (fun st o => o.used = none → ∃ job j', st = Step.next job (some j') ∧
+          fingerprintX dg j'.1 ≠ fingerprintX dg job.1)
+        h (run (fun j : Circuit K × P => fingerprintX dg j.1) s h).2 := by
+    intro h
+    induction h with
+    | nil => intro s; exact List.Forall₂.nil
+    | cons st rest ih =>
+      intro s
+      unfold run
+      exact List.Forall₂.cons (refused_iff _ s st).mp (ih _)
+  exact forall₂_and hgood (href h s)
 
 /-! ### Non-vacuity of the hypotheses -/
 
 /-- The hypotheses of `cache_refines_uncached` hold for a history that fills a variable, hits it
-with the same job, misses it with another job, and passes a matching `NextLayerPrepCache`. -/
+with the same job, misses it with another job, passes a matching `NextLayerPrepCache`, and is
+refused with a foreign one. -/
 example :
     let key : Nat → Nat := fun j => j
-    let h : List (Step Nat) := [.agg 1 (some 0), .agg 1 (some 0), .agg 2 (some 0), .next 3 (some 3)]
+    let h : List (Step Nat) :=
+      [.agg 1 (some 0), .agg 1 (some 0), .agg 2 (some 0), .next 3 (some 3), .next 3 (some 1)]
     SlotsWF key ([] : Slots Nat Nat) ∧
-      (∀ j j', j ∈ slotJobs ([] : Slots Nat Nat) ++ uncached h →
-        j' ∈ slotJobs ([] : Slots Nat Nat) ++ uncached h → key j = key j' → j = j') ∧
-      (∀ j j', Step.next j (some j') ∈ h → j' = j) ∧
-      (run key [] h).2.map (fun o => o.hit) = [false, true, false, true] := by
-  refine ⟨?_, ?_, ?_, ?_⟩
+      (∀ j j', j ∈ slotJobs ([] : Slots Nat Nat) ++ mentioned h →
+        j' ∈ slotJobs ([] : Slots Nat Nat) ++ mentioned h → key j = key j' → j = j') ∧
+      (run key [] h).2.map (fun o => (o.hit, o.used)) =
+        [(false, some 1), (true, some 1), (false, some 2), (true, some 3), (false, none)] := by
+  refine ⟨?_, ?_, ?_⟩
   · intro p hp; cases hp
   · intro j j' _ _ hk; exact hk
-  · intro j j' hm
-    simp only [List.mem_cons, List.not_mem_nil, or_false] at hm
-    rcases hm with hm | hm | hm | hm
-    · cases hm
-    · cases hm
-    · cases hm
-    · injection hm with h1 h2; injection h2 with h3; omega
   · decide
+
+/-- `DigestInjOn` is satisfiable for every list of jobs (identity digest). -/
+example {K P : Type} (js : List (Circuit K × P)) : DigestInjOn (fun st : Structure K => st) js :=
+  fun _ _ _ _ h => h
 
 end P3R.C17
 
+#print axioms P3R.C17.cache_refines_uncached_digest
 #print axioms P3R.C17.cache_refines_uncached_partial
 #print axioms P3R.C17.cache_refines_uncached
 #print axioms P3R.C17.cached_verdict_eq_uncached_partial
+#print axioms P3R.C17.refused_iff
+#print axioms P3R.C17.keyDeterminesPrep_of_digest
+#print axioms P3R.C17.prepData_congr
 #print axioms P3R.C17.different_job_recomputed
 #print axioms P3R.C17.agg_hit_iff
 #print axioms P3R.C17.agg_used_correct_iff
